@@ -758,6 +758,51 @@ def fam_mixed_cpu(rng):
     return net
 
 
+def fam_mixed_exact(rng):
+    """C01 across the CPU / NPU boundary: segments of operators the NPU implements exactly (convolution, depthwise, max
+    pool, add / sub / mul, ReLU clamps) separated by CPU-only operators (third-party custom operators, a float round trip,
+    L2_NORMALIZATION - uninterpreted in the reference, see refnet.standin); tensors of earlier segments and the network
+    inputs are read again after a CPU operator, so several Ethos-U operators share the arena with CPU tensors"""
+    net = Net("mixed_exact")
+    dt = rng.choice(["int8", "int8", "uint8"])
+    h, w, c = rng.randrange(2, 14), rng.randrange(2, 14), rng.choice([4, 8, 16])
+    x = _inp(net, rng, [1, h, w, c], dt)
+    x2 = _inp(net, rng, [1, h, w, c], dt) if rng.random() < 0.4 else None
+    t = x
+    keep = [x] + ([x2] if x2 is not None else [])      # same-shape tensors that may be read again later
+    nseg = rng.randrange(2, 4)
+    for s_ in range(nseg):
+        for _ in range(rng.randrange(1, 3)):
+            ch = rng.choice(["conv", "dw", "add_keep", "add_const", "relu", "mul_keep", "pool1"])
+            if ch == "conv":
+                t = conv2d(net, rng, t, c, (rng.choice([1, 3]),) * 2, (1, 1), (1, 1), "SAME", rng.choice(["NONE", "RELU", "RELU6"]))
+            elif ch == "dw":
+                t = depthwise(net, rng, t, (3, 3))
+            elif ch == "add_keep":
+                t = elementwise(net, rng, rng.choice(["ADD", "SUB"]), t, rng.choice(keep))
+            elif ch == "mul_keep":
+                t = elementwise(net, rng, "MUL", t, rng.choice(keep))
+            elif ch == "add_const":
+                t = elementwise(net, rng, "ADD", t, const_like(net, rng, [1, 1, 1, c], dt))
+            elif ch == "pool1":
+                t = pool(net, rng, t, "MAX_POOL_2D", (1, 1), (1, 1), "VALID")
+            else:
+                t = unary(net, rng, rng.choice(["RELU", "RELU6"]), t)
+            if list(t.shape) == list(x.shape):
+                keep.append(t)
+        if s_ < nseg - 1:
+            if rng.random() < 0.3 and len(keep) >= 2:
+                t = cpu_join(net, rng, [t, rng.choice(keep)])
+            else:
+                t = cpu_only(net, rng, t, rng.choice(["CUSTOM", "CUSTOM", "FLOAT_ROUNDTRIP", "L2_NORMALIZATION"]))
+            keep.append(t)
+    outs = [t]
+    if rng.random() < 0.3:
+        outs.append(rng.choice(keep))
+    net.output(*[o for i, o in enumerate(outs) if o not in outs[:i]])
+    return net
+
+
 UNSUPPORTED_KINDS = ["rank5", "rank0", "batch", "big_stride", "big_kernel", "int32_add", "float", "dyn_weights",
                      "big_dim", "no_quant", "dilation", "int16_pool", "bool", "per_axis_fc", "pool_stride4", "dw_stride4",
                      "dyn_reshape", "dyn_pad", "dyn_mean", "dyn_transpose", "dyn_slice", "dyn_resize", "dyn_split", "dyn_splitv",
@@ -1421,7 +1466,7 @@ def fam_multi_subgraph(rng, kind=None):
 
 FAMILIES = {
     "conv_chain": fam_conv_chain, "conv_chain_big": lambda rng: fam_conv_chain(rng, big=True), "single": fam_single_op,
-    "diamond": fam_diamond, "mixed_cpu": fam_mixed_cpu, "unsupported": fam_unsupported, "lut_heavy": fam_lut_heavy, "lut_mixed": fam_lut_mixed, "siamese": fam_siamese, "multi_input": fam_multi_input, "deep_chain": fam_deep_chain, "pow2_rescale": fam_pow2_rescale, "narrowing_chain": fam_narrowing_chain, "one_channel_tail": fam_one_channel_tail, "weights_heavy": fam_weights_heavy, "ew_dag": fam_ew_dag, "multi_custom": fam_multi_custom,
+    "diamond": fam_diamond, "mixed_cpu": fam_mixed_cpu, "unsupported": fam_unsupported, "lut_heavy": fam_lut_heavy, "lut_mixed": fam_lut_mixed, "siamese": fam_siamese, "multi_input": fam_multi_input, "deep_chain": fam_deep_chain, "pow2_rescale": fam_pow2_rescale, "narrowing_chain": fam_narrowing_chain, "one_channel_tail": fam_one_channel_tail, "mixed_exact": fam_mixed_exact, "weights_heavy": fam_weights_heavy, "ew_dag": fam_ew_dag, "multi_custom": fam_multi_custom,
 }
 FAMILIES["multi_subgraph"] = fam_multi_subgraph
 
